@@ -58,7 +58,62 @@ func c06Cases() []c06Case {
 		{"instances-in-loop", map[string]string{"p.vuego": `<div v-for="it in items"><template include="c.vuego"><b>I-{{ it }}</b></template></div>`, "c.vuego": `<p><slot>FB</slot></p>`}, d, "I-aI-bI-c"},
 		{"vif-inside-supplied", map[string]string{"p.vuego": `<template include="c.vuego"><b v-if="n">YES</b><b v-else>NO</b></template>`, "c.vuego": `<p><slot>FB</slot></p>`}, d, "YES"},
 	}
-	return cases
+	return append(cases, c06Generated()...)
+}
+
+// c06Generated: every way of USING a slot (once, twice with different props, inside v-for, inside v-for and once more) x every shape of supplied
+// content that reads the slot props (text, bound attribute, nested component with a bound / interpolated prop, <template v-html>, v-if, v-for,
+// a nested component whose own slot content reads them) x the two ways of receiving props (named variable, destructuring).
+// The expectation is computed: one rendering of the content per use, with that use's props.
+func c06Generated() []c06Case {
+	d := map[string]any{"name": "NAME", "items": []any{"a", "b", "c"}, "ks": []any{1, 2}, "n": 7}
+	type use struct {
+		comp string   // component body with <slot name="row" …> uses
+		vals []string // the :item value of every use, in output order
+	}
+	uses := []use{
+		{`<ul><slot name="row" :item="n"></slot></ul>`, []string{"7"}},
+		{`<div><p><slot name="row" :item="'L'"></slot></p><q><slot name="row" :item="'R'"></slot></q></div>`, []string{"L", "R"}},
+		{`<ul><li v-for="it in items"><slot name="row" :item="it"></slot></li></ul>`, []string{"a", "b", "c"}},
+		{`<ul><li v-for="it in items"><slot name="row" :item="it"></slot></li><li><slot name="row" :item="name"></slot></li></ul>`, []string{"a", "b", "c", "NAME"}},
+	}
+	type content struct {
+		name string
+		src  func(item string) string // item = the expression naming the slot prop ("p.item" or "item")
+		text func(v string) string
+	}
+	contents := []content{
+		{"text", func(e string) string { return `[{{ ` + e + ` }}]` }, func(v string) string { return "[" + v + "]" }},
+		{"bound-attr", func(e string) string { return `<b :title="` + e + `">({{ ` + e + ` }})</b>` }, func(v string) string { return "(" + v + ")" }},
+		{"nested-bound-prop", func(e string) string { return `<template include="leaf.vuego" :label="` + e + `"></template>` }, func(v string) string { return "/" + v + "/" }},
+		{"nested-interp-prop", func(e string) string { return `<template include="leaf.vuego" label="{{ ` + e + ` }}"></template>` }, func(v string) string { return "/" + v + "/" }},
+		{"template-vhtml", func(e string) string { return `<u><template v-html="` + e + `"></template></u>` }, func(v string) string { return v }},
+		{"vif", func(e string) string { return `<b v-if="` + e + `">Y{{ ` + e + ` }}</b><b v-else>N</b>` }, func(v string) string { return "Y" + v }},
+		{"vfor", func(e string) string { return `<u v-for="k in ks">{{ ` + e + ` }}{{ k }}</u>` }, func(v string) string { return v + "1" + v + "2" }},
+		{"nested-own-slot", func(e string) string { return `<template include="wrap.vuego"><s>{{ ` + e + ` }}</s></template>` }, func(v string) string { return "{" + v + "}" }},
+	}
+	var out []c06Case
+	for ui, u := range uses {
+		for _, ct := range contents {
+			for _, recv := range []struct{ attr, expr string }{{`v-slot:row="p"`, "p.item"}, {`#row="{ item }"`, "item"}} {
+				want := ""
+				for _, v := range u.vals {
+					want += ct.text(v)
+				}
+				out = append(out, c06Case{
+					desc: fmt.Sprintf("gen use%d/%s/%s", ui, ct.name, recv.expr),
+					files: map[string]string{
+						"p.vuego":    `<template include="c.vuego"><template ` + recv.attr + `>` + ct.src(recv.expr) + `</template></template>`,
+						"c.vuego":    u.comp,
+						"leaf.vuego": `<i>/{{ label }}/</i>`,
+						"wrap.vuego": `<q>{<slot></slot>}</q>`,
+					},
+					data: d, want: want,
+				})
+			}
+		}
+	}
+	return out
 }
 
 var c06TagRe = regexp.MustCompile(`<[^>]*>`)
